@@ -78,6 +78,22 @@ def _total_state(p):
     return None
 
 
+def smear_direction_rule(chk, repo, clause):
+    """the smear direction comes from the global random generator exactly when no angle was given (shared with C10-c)"""
+    fs, sp, _ = analyse(repo, 'convolvable.smear')
+    rnd = [p for p in returns(sp) if any(is_app(a, 'random.uniform') for a in nf.value_atoms(p.ret))]
+    det_ = [p for p in returns(sp) if p not in rnd]
+    want_c = nf.app('is', S('angle'), nf.Poly.atom(('val', nf.NONE)))
+    # (a guard on the total of the blurred image splits either case in two without changing which direction is used)
+    g_ok = bool(rnd) and bool(det_) and all([(c, pol) for c, pol, _ in q.conds if _total_test(c) is None] == [(want_c, True)]
+                                            for q in rnd)
+    chk.ob(clause, 'D-guard', fs.key, 'random direction exactly when angle is None', g_ok,
+           'random path taken when ' + '; '.join(conds_str(p) for p in rnd) + ' (a truthiness test would also discard angle=0)',
+           fs.loc())
+    a_ok = bool(det_) and all(any(is_app(a, 'deg2rad') and a[2][0] == S('angle') for a in nf.value_atoms(p.ret)) for p in det_)
+    chk.ob(clause, 'D-flow', fs.key, 'a given angle (degrees) is what the kernel is rotated by', a_ok, '', fs.loc())
+
+
 def run(chk, repo, tier):
     from .common import no_hidden_state
     no_hidden_state(chk, repo, 'C19')
@@ -98,18 +114,7 @@ def run(chk, repo, tier):
     common.shape_scan(chk, repo, 'C19-s', ['detector', 'convolvable'])
     chk.clause('C19-g', 'the smear direction is drawn at random only when no angle was given (angle is None), '
                'otherwise it is the requested angle', 2)
-    fs, sp, _ = analyse(repo, 'convolvable.smear')
-    rnd = [p for p in returns(sp) if any(is_app(a, 'random.uniform') for a in nf.value_atoms(p.ret))]
-    det_ = [p for p in returns(sp) if p not in rnd]
-    want_c = nf.app('is', S('angle'), nf.Poly.atom(('val', nf.NONE)))
-    # (a guard on the total of the blurred image splits either case in two without changing which direction is used)
-    g_ok = bool(rnd) and bool(det_) and all([(c, pol) for c, pol, _ in q.conds if _total_test(c) is None] == [(want_c, True)]
-                                            for q in rnd)
-    chk.ob('C19-g', 'D-guard', fs.key, 'random direction exactly when angle is None', g_ok,
-           'random path taken when ' + '; '.join(conds_str(p) for p in rnd) + ' (a truthiness test would also discard angle=0)',
-           fs.loc())
-    a_ok = bool(det_) and all(any(is_app(a, 'deg2rad') and a[2][0] == S('angle') for a in nf.value_atoms(p.ret)) for p in det_)
-    chk.ob('C19-g', 'D-flow', fs.key, 'a given angle (degrees) is what the kernel is rotated by', a_ok, '', fs.loc())
+    smear_direction_rule(chk, repo, 'C19-g')
     from .extra_rules import pixelate_rule
     pixelate_rule(chk, repo, 'C19-h')
     from ..effects import doc_param_kinds
